@@ -84,7 +84,7 @@ std::string escape_text(uint32_t cp, int style) {
 
 template <typename Char_T>
 void run_width(const Case &c, pbt::Ctx &ctx) {
-    std::vector<uint32_t> expect = ref_encode(c.cp, c.width);
+    std::vector<uint32_t> expect = ref_encode(c.cp, int(sizeof(Char_T)));
     std::vector<uint32_t> got;
     std::vector<uint32_t> pre, post;
     if (c.form == 0) {
@@ -187,7 +187,7 @@ struct H {
             }
             return v;
         });
-        return gen::map(gen::tuple(cp, pbt::pick<int>({1, 2, 4}), pbt::range<int>(0, 79)), [](std::tuple<uint32_t, int, int> t) {
+        return gen::map(gen::tuple(cp, pbt::pick<int>({1, 2, 4, 3}), pbt::range<int>(0, 79)), [](std::tuple<uint32_t, int, int> t) {
             Case c;
             c.cp    = std::get<0>(t);
             c.width = std::get<1>(t);
@@ -222,6 +222,7 @@ struct H {
         switch (c.width) {
             case 1: run_width<char>(c, ctx); break;
             case 2: run_width<char16_t>(c, ctx); break;
+            case 3: run_width<wchar_t>(c, ctx); break;
             default: run_width<char32_t>(c, ctx); break;
         }
     }
